@@ -1,5 +1,6 @@
 import RlModel.Lemmas.Exec
 import RlModel.Lemmas.ExecNull
+import RlModel.Lemmas.ExecWiden
 import RlModel.Lemmas.ExecAgg
 import RlModel.Lemmas.ValOrderRel
 /-!
@@ -331,15 +332,31 @@ theorem exec_refines_spec_count_distinct (vs : List Val) (ty : Ty) (cols : List 
 theorem exec_refines_spec_count_distinct_regression :
     rowPathVal .countDistinct [.null] = .i32 0 ∧ rowPathVal .countDistinct [.null, .i32 1, .i32 1] = .i32 1 := by decide
 
-/-- hash join (every type) refines the spec's equi-join under `KeysComparable`.  Since the `fix:`
-commit "a join key containing NULL never matches" NULL keys satisfy the hypothesis by themselves
-(`keysComparable_of_null_free`); what is left of it is the same-type requirement. -/
-theorem exec_refines_spec_hashjoin (t : JoinType) (ht : t = .inner ∨ t = .leftOuter ∨ t = .rightOuter ∨ t = .fullOuter)
+/-- the hash join's body (every type) refines the spec's equi-join on the key vectors it is given
+under `KeysComparable`.  Since the `fix:` commit "a join key containing NULL never matches" NULL keys
+satisfy the hypothesis by themselves (`keysComparable_of_null_free`); what is left of it is the
+same-type requirement, which the executor meets by building its keys through `join_key`. -/
+theorem exec_refines_spec_hashjoin_body (t : JoinType) (ht : t = .inner ∨ t = .leftOuter ∨ t = .rightOuter ∨ t = .fullOuter)
     (lk rk : List (Row → Val)) (nL nR : Nat) (Ls Rs : List Chunk)
     (hlen : ∀ l ∈ flat Ls, l.length = nL) (hk : KeysComparable lk rk (flat Ls) (flat Rs)) :
     (flat (hashJoin t lk rk nL nR Ls Rs)).Perm
       (joinRel t (equiOn nL lk rk (fun _ => some true)) nL nR (flat Ls) (flat Rs)) :=
   hash_eq_spec_partial t ht lk rk nL nR Ls Rs hlen hk
+
+/-- `widen_keys_comparable`: keys that went through `join_key` are comparable, whatever the data. -/
+theorem exec_join_keys_comparable (lk rk : List (Row → Val)) (L R : List Row) :
+    KeysComparable (wk lk) (wk rk) L R := widen_keys_comparable lk rk L R
+
+/-- the hash join executor (every type; keys built through `join_key` since the `fix:` commit "join
+keys compare by value") refines the spec's equi-join on the ORIGINAL keys — for all data, any mix of
+SMALLINT / INT / BIGINT key columns included; no hypothesis about the keys is left. -/
+theorem exec_refines_spec_hashjoin (t : JoinType) (ht : t = .inner ∨ t = .leftOuter ∨ t = .rightOuter ∨ t = .fullOuter)
+    (lk rk : List (Row → Val)) (nL nR : Nat) (Ls Rs : List Chunk) (hlen : ∀ l ∈ flat Ls, l.length = nL) :
+    (flat (hashJoinW t lk rk nL nR Ls Rs)).Perm
+      (joinRel t (equiOn nL lk rk (fun _ => some true)) nL nR (flat Ls) (flat Rs)) := by
+  have h := hash_eq_spec_partial t ht (wk lk) (wk rk) nL nR Ls Rs hlen (widen_keys_comparable lk rk _ _)
+  rw [equiOn_wk] at h
+  exact h
 
 /-- regression input (the witness of the former `…_hashjoin_null_key_unsound`): NULL keys are not
 joined any more; outer joins still emit the rows padded. -/
@@ -350,11 +367,14 @@ theorem exec_refines_spec_hashjoin_null_key_regression :
       (joinRel .fullOuter (equiOn 1 [fun r => r.getD 0 .null] [fun r => r.getD 0 .null] (fun _ => some true)) 1 1 [[.null]] [[.null]]) := by
   constructor <;> decide
 
-/-- full statement without the hypothesis (false): Int32 1 and Int64 1 are SQL-equal, never joined. -/
-theorem exec_refines_spec_hashjoin_int_width_unsound :
+/-- regression input (the witness of the former `…_hashjoin_int_width_unsound`): Int32 1 and Int64 1
+are SQL-equal and are joined; the body on raw keys would not join them. -/
+theorem exec_refines_spec_hashjoin_int_width_regression :
+    (flat (hashJoinW .inner [fun r => r.getD 0 .null] [fun r => r.getD 0 .null] 1 1 [[[.i32 1]]] [[[.i64 1]]])).Perm
+      (joinRel .inner (equiOn 1 [fun r => r.getD 0 .null] [fun r => r.getD 0 .null] (fun _ => some true)) 1 1 [[.i32 1]] [[.i64 1]]) ∧
     ¬ (flat (hashJoin .inner [fun r => r.getD 0 .null] [fun r => r.getD 0 .null] 1 1 [[[.i32 1]]] [[[.i64 1]]])).Perm
       (joinRel .inner (equiOn 1 [fun r => r.getD 0 .null] [fun r => r.getD 0 .null] (fun _ => some true)) 1 1 [[.i32 1]] [[.i64 1]]) := by
-  decide
+  constructor <;> decide
 
 
 /-! ## correlated scalar aggregate subqueries -/
